@@ -247,6 +247,85 @@ func (w *world) leaf(k int, pre bool, signer, finalSigner *pki.Entity) (leaf, fi
 			DNSNames: []string{cn}, EKUs: []x509.ExtKeyUsage{x509.ExtKeyUsageServerAuth}, Mutate: withRawSubject(rawSubj)}, parent)
 		return respki(e, parent.Key, leafSPKI)
 	}
+	order := "go"
+	if r.Intn(3) > 0 {
+		// EXPLICIT ORDER of the whole extension list.  CreateCertificate emits key usage, extended key
+		// usage, basic constraints, subject key id, authority key id, subject alternative name in that
+		// order and the ExtraExtensions (poison included) after them: the poison never preceded the
+		// authority key id and never stood among the standard extensions.  Here the standard
+		// extensions are taken (Id, Critical, Value) from a template issue, put together with the
+		// unknown ones in a drawn order and handed over as ExtraExtensions one and all
+		// (CreateCertificate then adds none of its own); the position of the poison relative to the
+		// authority key id is drawn on its own.  The final certificate has the same list in the same
+		// order (authority key id = the final issuer's; SCT list anywhere).
+		var akiAt = -1
+		all := append([]pkix.Extension{}, others...)
+		for _, e := range mk(nil, signer).Cert.Extensions {
+			all = append(all, pkix.Extension{Id: e.Id, Critical: e.Critical, Value: e.Value})
+		}
+		r.Shuffle(len(all), func(a, b int) { all[a], all[b] = all[b], all[a] })
+		for j, e := range all {
+			if e.Id.Equal(x509.OIDExtensionAuthorityKeyId) {
+				akiAt = j
+			}
+		}
+		if akiAt >= 0 && r.Intn(4) == 0 { // authority key id last (nothing after it) / first
+			e := all[akiAt]
+			all = append(all[:akiAt:akiAt], all[akiAt+1:]...)
+			if r.Intn(2) == 0 {
+				all, akiAt = append(all, e), len(all)
+			} else {
+				all, akiAt = insertAt(all, 0, e), 0
+			}
+		}
+		place := []string{"first", "before-aki", "after-aki", "last", "random"}[r.Intn(5)]
+		var pAt int
+		switch {
+		case place == "first":
+			pAt = 0
+		case place == "before-aki" && akiAt >= 0:
+			pAt = akiAt
+		case place == "after-aki" && akiAt >= 0:
+			pAt = akiAt + 1
+		case place == "last":
+			pAt = len(all)
+		default:
+			pAt = r.Intn(len(all) + 1)
+		}
+		rel := "no-aki"
+		if akiAt >= 0 {
+			rel = "poison-after-aki"
+			if pAt <= akiAt {
+				rel = "poison-before-aki"
+				if akiAt == len(all)-1 {
+					rel = "poison-before-aki-last"
+				}
+			}
+		}
+		order = fmt.Sprintf("explicit/%s/%s", place, rel)
+		leaf = mk(insertAt(all, pAt, pki.PoisonExt()), signer)
+		var finalExt []pkix.Extension
+		for _, e := range all {
+			if e.Id.Equal(x509.OIDExtensionAuthorityKeyId) {
+				if len(finalSigner.Cert.SubjectKeyId) == 0 {
+					continue // the final issuer has no key id to name
+				}
+				e = handAKIExt(finalSigner.Cert.SubjectKeyId)
+			}
+			finalExt = append(finalExt, e)
+		}
+		if akiAt < 0 && len(finalSigner.Cert.SubjectKeyId) > 0 {
+			finalExt = append(finalExt, handAKIExt(finalSigner.Cert.SubjectKeyId)) // see below
+		}
+		sj := r.Intn(len(finalExt) + 1)
+		if akiAt < 0 && len(finalSigner.Cert.SubjectKeyId) > 0 {
+			sj = r.Intn(len(finalExt)) // the added authority key id stays last once the SCT list is gone
+		}
+		final = mk(insertAt(finalExt, sj, dummySCTListExt(r)), finalSigner)
+		w.spkiOf[leaf] = leafSPKI
+		w.tags = append(w.tags, "ext-order="+order)
+		return leaf, final, fmt.Sprintf("precert key=%s ext=%d order=%s poison@%d/%d sct@%d subject-dn=%s spki=%s", kind, nExtra, order, pAt, len(all)+1, sj, subjStyle, leafSPKI)
+	}
 	pi := r.Intn(len(others) + 1)
 	sj := r.Intn(len(others) + 1)
 	leaf = mk(insertAt(others, pi, pki.PoisonExt()), signer)
@@ -750,6 +829,52 @@ func precertEntryFacts(entry []byte, finalIssuer *pki.Entity, precertDER []byte)
 				akiValue = v
 				nAKI++
 			}
+		}
+	}
+	// every other extension is the precertificate's, byte for byte and in the precertificate's
+	// order (RFC 6962 3.2: nothing but the poison, the issuer and the authority key id changes)
+	extList := func(fs [][]byte) ([][]byte, bool) {
+		last := fs[len(fs)-1]
+		if last[0] != 0xa3 {
+			return nil, true
+		}
+		_, inner, _, _, ok := derNext(last)
+		if !ok {
+			return nil, false
+		}
+		_, seq, _, _, ok := derNext(inner)
+		if !ok {
+			return nil, false
+		}
+		exts, ok := derChildren(seq)
+		if !ok {
+			return nil, false
+		}
+		var out [][]byte
+		for _, e := range exts {
+			_, ec, _, _, ok := derNext(e)
+			parts, ok2 := derChildren(ec)
+			if !ok || !ok2 || len(parts) < 2 {
+				return nil, false
+			}
+			if bytes.Equal(parts[0], derOIDPoison) || bytes.Equal(parts[0], derOIDAKI) {
+				continue
+			}
+			out = append(out, e)
+		}
+		return out, true
+	}
+	got, ok1 := extList(fields)
+	wantExt, ok2 := extList(pf)
+	if !ok1 || !ok2 {
+		return "extensions do not parse"
+	}
+	if len(got) != len(wantExt) {
+		return "the entry's TBSCertificate does not carry the precertificate's other extensions (their number differs)"
+	}
+	for k := range got {
+		if !bytes.Equal(got[k], wantExt[k]) {
+			return fmt.Sprintf("extension %d (poison and authority key id not counted) of the entry's TBSCertificate is not the precertificate's byte for byte / in the precertificate's order", k)
 		}
 	}
 	ski := finalIssuer.Cert.SubjectKeyId
